@@ -513,6 +513,11 @@ def r2q(R, check=False, tol=100):
     if not base.isrot(R, check=check, tol=tol):
         raise ValueError("Argument must be a valid SO(3) matrix")
 
+    if R.dtype.kind == 'f' and R.dtype.itemsize < 8:
+        # a half- or single-precision matrix: the quaternion is computed in
+        # double precision (in its own precision it is of unit norm to 1e-8 only)
+        R = R.astype(np.float64)
+
     qs = math.sqrt(max(0, np.trace(R) + 1)) / 2.0
     kx = R[2, 1] - R[1, 2]  # Oz - Ay
     ky = R[0, 2] - R[2, 0]  # Ax - Nz
